@@ -36,11 +36,19 @@ func (p PipeCon) SetDeadline(t time.Time) error {
 	panic("implement me")
 }
 
+// The pipes to the bridge process are pollable files: forward deadlines to
+// them, otherwise a cancelled context cannot unblock a pending read or write.
 func (p PipeCon) SetReadDeadline(t time.Time) error {
+	if d, ok := p.reader.(interface{ SetReadDeadline(time.Time) error }); ok {
+		return d.SetReadDeadline(t)
+	}
 	return nil
 }
 
 func (p PipeCon) SetWriteDeadline(t time.Time) error {
+	if d, ok := p.writer.(interface{ SetWriteDeadline(time.Time) error }); ok {
+		return d.SetWriteDeadline(t)
+	}
 	return nil
 }
 
